@@ -125,7 +125,9 @@ def main(chk):
     for li, (mn, mx) in enumerate(limits):
         d = os.path.join(root, 'l%d' % li)
         b = build_module(mn, mx).encode()
-        t = e2e.translate(w2c2, b, d, 'gm')
+        # odd limit shapes are translated into one file per function (-f 1): grow, size, load and store then live in different
+        # translation units of the same program, which is how large modules are normally built
+        t = e2e.translate(w2c2, b, d, 'gm', ['-f', '1'] if li % 2 else [])
         if t.rc != 0:
             chk.violation('C18:translate', 'module rejected: %s' % t.err[-300:], {'module.wasm': b})
             return
